@@ -15,6 +15,7 @@ from mitxgraders.helpers.calc import mathfuncs
 from mitxgraders.sampling import set_seed
 from mitxgraders.comparers import LinearComparer
 
+STANDING_DEFAULTS = False   # this check registers and clears class defaults itself and snapshots the class tables
 RULE = ("(seq12/seq20, EXHAUSTIVE) for each item-grader class (String with a validation pattern, Formula, Numerical, "
         "Matrix, Matrix with negative powers disabled, SingleList, Interval) x {answers configured, not} x {debug on, "
         "off}: every call sequence of length 3 (quick) / 4 (thorough) over the 12 events expect in {absent, valid A, "
@@ -933,6 +934,18 @@ def _pair_templates():
         'interval': (lambda: I(answers='[1,pi)'), ['[1,pi)', '[1,3.1)', '[1,infty)']),
         'sum': (lambda: S(answers={'lower': '1', 'upper': '4', 'summand': 'n', 'summation_variable': 'n'}),
                 [['1', '4', 'n', 'n'], ['1', '4', 'k+pi-pi', 'k'], ['1', 'infty', '2^-n*0+n*0', 'n']]),
+        # function calls inside summation limits, then the same summand text under a function restriction elsewhere
+        # (a seeded change merged the limits' function names into the cached parse of the summand)
+        'sum_funclimit': (lambda: S(answers={'lower': '1', 'upper': 'sqrt(16)', 'summand': 'n^2', 'summation_variable': 'n'},
+                                    user_functions={'half': lambda x: x / 2.0}),
+                          [['1', 'sqrt(16)', 'n^2', 'n'], ['1', 'half(8)', 'n^2', 'n'], ['1', '4', 'n^2', 'n'],
+                           ['cos(0)', '4', 'k^2', 'k']]),
+        'sum_black': (lambda: S(answers={'lower': '1', 'upper': '4', 'summand': 'n^2', 'summation_variable': 'n'},
+                                blacklist=['sqrt']),
+                      [['1', '4', 'n^2', 'n'], ['1', 'sqrt(16)', 'n^2', 'n'], ['1', '4', 'k^2', 'k']]),
+        'form_n2_black': (lambda: F(answers='n^2', variables=['n', 'k'], blacklist=['sqrt', 'cos']), ['n^2', 'n*n', 'k^2']),
+        'form_n2_required': (lambda: F(answers='sqrt(n^4)', variables=['n', 'k'], required_functions=['sqrt']),
+                             ['n^2', 'sqrt(n^4)', 'k^2']),
         'string': (lambda: St(answers='cat', wrong_msg='no'), ['cat', 'dog']),
         'slist': (lambda: SL(answers=['x+1', '2*x'], subgrader=F(variables=['x'])), ['x+1, 2*x', '2*x, pi']),
         'list': (lambda: L(answers=['x', 'pi'], subgraders=F(variables=['x'])), [['x', 'pi'], ['pi', '2k']]),
